@@ -17,22 +17,54 @@ pub struct Path {
     /// short piece, long unaligned piece, short piece
     pub three: bool,
     pub kind: Kind,
+    /// whole input through a caller-supplied closure / write_keystream_blocks (`P::closure`)
+    pub closure: u8,
+    /// pieces of cycling sizes, each through the next call form of `Fe::forms` (phase = starting form)
+    pub cycle: Option<usize>,
 }
 pub fn paths(fe: &Fe) -> Vec<Path> {
     let mut v = vec![];
+    let base = |name: String, kind: Kind| Path { name, unit: false, three: false, kind, closure: 0, cycle: None };
     for &k in &fe.kinds {
-        v.push(Path { name: format!("whole:{}", k.s()), unit: false, three: false, kind: k });
+        v.push(base(format!("whole:{}", k.s()), k));
+    }
+    for c in 1..=fe.max_closure {
+        v.push(Path { closure: c, ..base(format!("whole:{}", ["closure-singles", "closure-tail", "write_keystream"][c as usize - 1]), Kind::InPlace) });
     }
     if fe.multi {
-        v.push(Path { name: "unitwise".into(), unit: true, three: false, kind: fe.kinds[0] });
-        v.push(Path { name: "three-pieces".into(), unit: false, three: true, kind: fe.kinds[0] });
+        v.push(Path { unit: true, ..base("unitwise".into(), fe.kinds[0]) });
+        v.push(Path { three: true, ..base("three-pieces".into(), fe.kinds[0]) });
+        for ph in 0..2 {
+            v.push(Path { cycle: Some(ph), ..base(format!("form-cycle:{ph}"), fe.kinds[0]) });
+        }
     }
     v
 }
 pub fn pieces_for(fe: &Fe, path: &Path, l: usize) -> Vec<P> {
+    let g = fe.gran;
+    if let Some(ph) = path.cycle {
+        // granules per piece: a fixed cycle with small and larger pieces; forms: every form in turn
+        let sizes: [usize; 7] = if g == 1 { [1, 3, 2, 7, 5, 17, 4] } else { [1, 2, 3, 1, 4, 2, 5] };
+        let mut left = l / g;
+        let mut v = vec![];
+        let mut i = ph * 3;
+        while left > 0 {
+            let n = sizes[i % sizes.len()].min(left);
+            let forms = fe.forms(n);
+            v.push(forms[(i + ph) % forms.len()]);
+            left -= n;
+            i += 1;
+        }
+        if v.is_empty() {
+            v.push(p(0, path.kind));
+        }
+        return v;
+    }
+    if path.closure != 0 {
+        return vec![P { len: l, kind: Kind::InPlace, single: false, closure: path.closure }];
+    }
     if path.three {
         // first piece ends mid-block where the granule allows it, the middle piece is as long as possible
-        let g = fe.gran;
         let a = if g == 1 { 1 + (l / 7) % 5 } else { g };
         let c = if g == 1 { 1 + (l / 11) % 3 } else { g };
         if l >= a + c + g {
